@@ -671,12 +671,9 @@ def extract(repo=None):
     anchor('method_unregisters_from_policy', r'Policy::methods\.remove\(\*this\);', core, 'core.hpp')
     # the registration record of a definition is a function-local static of method<Key, Signature, Policy>::add_function<F>'s
     # constructor: one per (method, function), hence per policy
-    anchor('definition_record_local_static', r'struct add_function \{\s*explicit add_function\(next_type\* next = nullptr\) \{\s*static detail::definition_info info;', core, 'core.hpp')
-    anchor('definition_registers_in_method', r'fn\.specs\.push_back\(info\);', core, 'core.hpp')
+    # the bodies of add_function's, method's and class_declaration_aux's constructors / destructors are translated
+    # (translators/registration.py -> Gen/GenReg.v), not anchored here
     anchor('class_declaration_aux', r'template<class Policy, class Class, typename\.\.\. Bases>\s*struct class_declaration_aux<Policy, detail::types<Class, Bases\.\.\.>>\s*: class_info \{', detail, 'detail.hpp')
-    anchor('class_registers_in_policy', r'Policy::classes\.push_back\(\*this\);', detail, 'detail.hpp')
-    anchor('class_unregisters_from_policy', r'Policy::classes\.remove\(\*this\);', detail, 'detail.hpp')
-    anchor('class_static_vptr_of_policy', r'this->static_vptr = &Policy::template static_vptr<Class>;', detail, 'detail.hpp')
     anchor('type_id_list', r'template<class Policy, typename\.\.\. T>\s*struct type_id_list<Policy, types<T\.\.\.>> \{', detail, 'detail.hpp')
 
     classes = rd.classes
